@@ -20,7 +20,7 @@ def run(tier, seed):
         forms = ["vars"] if obj["kind"] == "frame" else FORMS
         fs = [forms[(seed + r["id"]) % len(forms)]] if tier == "quick" else forms
         for f in fs:
-            job = {"obj": obj, "id": r["id"], "form": f, "prim": False, "patterns": pats, "expects": r["cycle"],
+            job = {"obj": obj, "id": r["id"], "flip": GC.flip_of(seed, r["id"]), "form": f, "prim": False, "patterns": pats, "expects": r["cycle"],
                    "masks": r["touched"]}
             for i in range(0, len(pats), 128):
                 j = dict(job)
@@ -31,7 +31,7 @@ def run(tier, seed):
             pf = [pf[(seed + r["id"]) % len(pf)]]
         for f in pf:
             for which in ("cycle", "path"):
-                emitjobs.append({"obj": obj, "id": r["id"], "form": f, "which": which, "expects": r[which],
+                emitjobs.append({"obj": obj, "id": r["id"], "flip": GC.flip_of(seed, r["id"]), "form": f, "which": which, "expects": r[which],
                                  "masks": r["touched"]})
     results = GC.pmap(GR.run_cycle, z3jobs)
     for job, mism in zip(z3jobs, results):
